@@ -13,7 +13,7 @@ Because the stored values are views, "what the exporter reads" depends on the ca
 therefore carries a caller heap: every body / attribute-list argument lives in a caller cell `BufId`, which the program
 may later overwrite (`scribble`) or `free`. -/
 namespace Otel.LogRecord
-open Otel.Attr
+open Otel.SAttr
 
 abbrev BufId := Nat
 abbrev RecId := Nat
